@@ -2,6 +2,8 @@ import Deb822Verif.Model.DebLossy
 import Deb822Verif.Model.DebAccess
 import Deb822Verif.Lemmas.DebLexLines
 import Deb822Verif.Lemmas.DebLossyDoc
+import Deb822Verif.Lemmas.DebLexInv
+import Deb822Verif.Lemmas.DebTokAgree
 import Deb822Verif.Props.C03
 /-!
 # C06 — lossy and lossless deb822 readers agree on content
@@ -145,5 +147,132 @@ theorem C06_joint_accept (d : DocS) (h : d.WF) :
     empty first line, a ':' continuation, no final newline) is in the domain -/
 example : Lossy.read Props.C03.exDoc.str = .ok (lossyDoc Props.C03.exDoc) :=
   (C06_joint_accept _ (by decide)).1
+
+end Deb822Verif.Props.C06
+
+namespace Deb822Verif.Props.C06
+open Deb822Verif Deb
+
+/-! ### clause 1: agreement on ARBITRARY texts that both readers accept
+
+The proof does not go through the document grammar `Spec/DocS`: `Lemmas/DebLexInv.lean` proves three
+facts about `lex s` for every text `s` (a VALUE token ends its line, no WHITESPACE token at the start
+of a line, no line terminator inside a VALUE token), and `Lemmas/DebTokAgree.lean` runs the two
+reader loops in lock step over any token list with these properties. -/
+
+abbrev Content := List (List (Str × Str))
+
+/-- the relation between the two contents: same paragraphs, same names in the same order, same
+    non-blank value lines -/
+def contentRel (d : Lossy.Doc) (c : Content) : Prop := d.map (·.map nbField) = c.map (·.map nbField)
+
+/-- the oracle of `deb.both` (harness/src/lossy.rs, `nb_eq`) transcribed: same number of
+    paragraphs; per paragraph the same list of names; per field the same non-blank value lines -/
+def nbEq (a b : Content) : Bool :=
+  a.length == b.length &&
+  (a.zip b).all fun pq =>
+    (pq.1.map (·.1) == pq.2.map (·.1)) &&
+    (pq.1.zip pq.2).all fun fg => nb fg.1.2 == nb fg.2.2
+
+theorem map_eq_map_iff_zip {α β γ : Type} (f : α → γ) (g : β → γ) (l1 : List α) (l2 : List β) :
+    l1.map f = l2.map g ↔ l1.length = l2.length ∧ ∀ p ∈ l1.zip l2, f p.1 = g p.2 := by
+  induction l1 generalizing l2 with
+  | nil => cases l2 <;> simp
+  | cons a l1 ih =>
+    cases l2 with
+    | nil => simp
+    | cons b l2 =>
+      simp only [List.map_cons, List.cons.injEq, ih, List.length_cons, Nat.add_right_cancel_iff,
+        List.zip_cons_cons, List.mem_cons, forall_eq_or_imp]
+      constructor
+      · rintro ⟨h1, h2, h3⟩; exact ⟨h2, h1, h3⟩
+      · rintro ⟨h1, h2, h3⟩; exact ⟨h2, h1, h3⟩
+
+theorem para_rel_iff (p q : List (Str × Str)) :
+    p.map nbField = q.map nbField ↔
+      p.map (·.1) = q.map (·.1) ∧ ∀ fg ∈ p.zip q, nb fg.1.2 = nb fg.2.2 := by
+  rw [map_eq_map_iff_zip, map_eq_map_iff_zip]
+  simp only [nbField, Prod.mk.injEq]
+  constructor
+  · rintro ⟨h1, h2⟩; exact ⟨⟨h1, fun fg h => (h2 fg h).1⟩, fun fg h => (h2 fg h).2⟩
+  · rintro ⟨⟨h1, h2⟩, h3⟩; exact ⟨h1, fun fg h => ⟨h2 fg h, h3 fg h⟩⟩
+
+/-- `contentRel` is exactly what the harness oracle evaluates -/
+theorem contentRel_iff_oracle (d : Lossy.Doc) (c : Content) : contentRel d c ↔ nbEq d c = true := by
+  unfold contentRel nbEq
+  rw [map_eq_map_iff_zip]
+  simp only [Bool.and_eq_true, beq_iff_eq, List.all_eq_true]
+  constructor
+  · rintro ⟨h1, h2⟩
+    exact ⟨h1, fun pq hpq => (para_rel_iff pq.1 pq.2).1 (h2 pq hpq)⟩
+  · rintro ⟨h1, h2⟩
+    exact ⟨h1, fun pq hpq => (para_rel_iff pq.1 pq.2).2 (h2 pq hpq)⟩
+
+/-- **C06, clause 1**: for EVERY text, if the lossy reader accepts it and the lossless reader
+    reports no error (`Deb822::from_str` accepts), the two readers report the same paragraphs, the
+    same field names in the same order and, for every field, the same sequence of non-blank value
+    lines -/
+theorem C06_agree (s : Str) (d : Lossy.Doc) (hL : Lossy.read s = .ok d)
+    (hS : (parse s).errors = []) : contentRel d (docItems (parse s).tree) :=
+  agree_tok (lex s) d (lex_lx s) hL hS
+
+/-- the same with the strict reader's result -/
+theorem C06_agree_strict (s : Str) (d : Lossy.Doc) (t : DNode) (hL : Lossy.read s = .ok d)
+    (hS : readStrict s = .ok t) : contentRel d (docItems t) := by
+  unfold readStrict at hS
+  split at hS
+  · rename_i he
+    simp at hS
+    subst hS
+    exact C06_agree s d hL (by simpa using he)
+  · simp at hS
+
+/-- the same as a statement about the oracle of `deb.both`: it never fires -/
+theorem C06_agree_oracle (s : Str) (d : Lossy.Doc) (t : DNode) (hL : Lossy.read s = .ok d)
+    (hS : readStrict s = .ok t) : nbEq d (docItems t) = true :=
+  (contentRel_iff_oracle _ _).1 (C06_agree_strict s d t hL hS)
+
+/-- the token-level statement behind `C06_agree`: any token list with the three lexer properties -/
+theorem C06_agree_tokens (ts : List Tok) (d : Lossy.Doc) (hl : Lx .NEWLINE ts)
+    (hL : Lossy.loop [] [] ts = .ok d) (hS : (parseTokens ts).errors = []) :
+    contentRel d (docItems (parseTokens ts).tree) :=
+  agree_tok ts d hl hL hS
+
+/-- the lexer properties used (Lemmas/DebLexInv.lean), for every text -/
+theorem C06_lex_invariant (s : Str) : Lx .NEWLINE (lex s) := lex_lx s
+
+/-! non-vacuity, inside the grammar: the document of Props/C03 satisfies both hypotheses -/
+example : Lossy.read Props.C03.exDoc.str = .ok (lossyDoc Props.C03.exDoc) ∧
+    (parse Props.C03.exDoc.str).errors = [] := by
+  have h := C06_joint_accept Props.C03.exDoc (by decide)
+  refine ⟨h.1, ?_⟩
+  have h2 := h.2.1
+  unfold readStrict at h2
+  split at h2
+  · rename_i he; simpa using he
+  · simp at h2
+
+/-- outside the grammar `Spec/DocS`: CR line ends (a lone CR inside a field, CR LF after a leading
+    comment), a comment line and a blank-only line among the continuation lines, a tab-indented
+    continuation with trailing blanks, a field whose only continuation is a comment, several blank
+    lines, odd whitespace after the colon, no final newline -/
+def exOdd : Str :=
+  "#lead\r\nA:b\r #c\n \n\td \n#x\nB:\n  # only comment\n\n\n# y\nC: \t e:f\n  g".toList
+
+example : (parse exOdd).errors = [] := by decide +kernel
+example : Lossy.read exOdd =
+    .ok [[("A".toList, "b\n\n\nd ".toList), ("B".toList, "\n".toList)], [("C".toList, "e:f\ng".toList)]] := by
+  decide +kernel
+/-- the two contents differ as strings and agree up to blank lines -/
+example : docItems (parse exOdd).tree =
+    [[("A".toList, "b\nd ".toList), ("B".toList, [])], [("C".toList, "e:f\ng".toList)]] := by
+  decide +kernel
+example : contentRel [[("A".toList, "b\n\n\nd ".toList), ("B".toList, "\n".toList)],
+    [("C".toList, "e:f\ng".toList)]] (docItems (parse exOdd).tree) :=
+  C06_agree exOdd _ (by decide +kernel) (by decide +kernel)
+
+/-- the hypotheses matter: a text only one reader accepts (`KEY WHITESPACE COLON`) -/
+example : (parse "A : b\n".toList).errors = [] ∧ Lossy.read "A : b\n".toList = .error .UnexpectedToken := by
+  decide +kernel
 
 end Deb822Verif.Props.C06
